@@ -153,6 +153,35 @@ def inverse_pairs(ctx, rule="R12.1"):
 ORIG, ISO = "ORIG", "ISO"
 
 
+def prepos_isometrizes_once(pre):
+    """pre_pos contains exactly one isometrize call, on the point list `pos`, and its result is what is returned as positions: either the call
+    stands in the returned tuple, or it is assigned (under `self.model is not None`) to the name that the returned tuple starts with."""
+    calls = [n for n in ast.walk(pre) if isinstance(n, ast.Call) and isinstance(n.func, ast.Attribute) and n.func.attr == "isometrize"]
+    if len(calls) != 1 or ast.unparse(calls[0]) != "self.model.isometrize(pos)":
+        return False
+    c = calls[0]
+    rets = [s for s in ast.walk(pre) if isinstance(s, ast.Return) and s.value is not None]
+
+    def first_elt(v):
+        while isinstance(v, ast.BinOp):
+            v = v.left
+        return v.elts[0] if isinstance(v, ast.Tuple) and v.elts else None
+
+    firsts = [first_elt(r.value) for r in rets]
+    if any(f is None for f in firsts):
+        return False
+    if any(any(x is c for x in ast.walk(f)) for f in firsts):
+        # direct form: the other returns (no model) hand out the raw point list
+        return all(any(x is c for x in ast.walk(f)) or ast.unparse(f) == "pos" for f in firsts)
+    asg = [s for s in ast.walk(pre) if isinstance(s, ast.Assign) and s.value is c and len(s.targets) == 1 and isinstance(s.targets[0], ast.Name)]
+    if len(asg) != 1:
+        return False
+    nm = asg[0].targets[0].id
+    guarded = any(isinstance(i_, ast.If) and ast.unparse(i_.test) in ("self.model is not None",) and any(x is asg[0] for x in i_.body) for i_ in ast.walk(pre)) or \
+        any(isinstance(i_, ast.If) and ast.unparse(i_.test) == "self.model is None" and any(x is asg[0] for x in i_.orelse) for i_ in ast.walk(pre))
+    return guarded and all(isinstance(f, ast.Name) and f.id == nm for f in firsts) and all(r._ord > asg[0]._ord for r in rets)
+
+
 def frames(ctx, rule="R12.2"):
     """Coordinate-frame typestate over the pipelines (sites enumerated from the tree)."""
     prog = ctx.prog
@@ -275,9 +304,8 @@ def frames(ctx, rule="R12.2"):
     KB = "krige/base.py"
     analyse("field/base.py", "Field.pre_pos", {}, {})
     pre = prog.func("field/base.py", "Field.pre_pos")
-    rets = [ast.unparse(s.value) for s in ast.walk(pre) if isinstance(s, ast.Return)]
     n += 1
-    ctx.check(any("self.model.isometrize(pos)" in r for r in rets) and sum(r.count("isometrize") for r in rets) == 1, rule, "field/base.py::Field.pre_pos",
+    ctx.check(prepos_isometrizes_once(pre), rule, "field/base.py::Field.pre_pos",
               "positions are isometrized exactly once, at the end of pre_pos (raw positions only when there is no model)", "prepos-once")
     analyse("field/srf.py", "SRF.__call__", {}, {"self.generator": ([0], ISO)})
     analyse("field/cond_srf.py", "CondSRF.__call__", {}, {"self.generator": ([0], ISO)})
@@ -332,6 +360,10 @@ def bookkeeping(ctx, rule="R12.3"):
               "too few length scales are filled up behind with the last one (len_scale[i] stays on axis i)", "len-fill-behind")
     ok = "out_anis = set_anis(dim, anis)" in asg
     ctx.check(ok, rule, T + "::set_len_anis", "a scalar length scale keeps the given ratios (padded by set_anis)", "keep-anis")
+    # "one value" is decided on what is left after truncation to dim values, not on how the value was spelled ([4.0] is one value)
+    keep = [s for s in ast.walk(sl) if isinstance(s, ast.If) and any(norm_stmt(x) == "out_anis = set_anis(dim, anis)" for x in s.body)]
+    ctx.check(len(keep) == 1 and ast.unparse(keep[0].test) in ("len(ls_tmp) == 1", "ls_tmp.size == 1", "np.size(ls_tmp) == 1"), rule, T + "::set_len_anis",
+              "the ratios are kept iff exactly one length-scale value remains (test: %s)" % (ast.unparse(keep[0].test) if keep else "none"), "keep-anis-when")
     chk = [s for s in ast.walk(sl) if isinstance(s, ast.If) and ast.unparse(s.test) == "not ani > 0.0" and any(isinstance(x, ast.Raise) for x in s.body)]
     ctx.check(len(chk) == 1, rule, T + "::set_len_anis", "ratios must be > 0 (ValueError otherwise)", "positive")
     sa = prog.func(GEO, "set_anis")
